@@ -8,6 +8,7 @@ from vf import dense, gen
 from vf.budget import Budget, pairs_of
 from vf.core import Clause, Property, Violation
 from vf.osk import IS_TM, eff_tau, outcome_values, rate_values
+from vf.props.c04 import big_lobbies
 
 EPS = sys.float_info.epsilon
 R = 1e-9
@@ -67,6 +68,8 @@ PROPERTY = Property(
                rule="one rate() call; non-trivial = >= 3 teams or a tie"),
         Clause(name="dense-two-team-sweep", strategy=dense.two_team_sweep(), check=check_c07, quick=12000, thorough=400000,
                rule="two-team games with the standardised gap drawn uniformly from [-10, 10], all three outcomes; non-trivial = a draw"),
+        Clause(name="large-lobbies", strategy=big_lobbies(), check=check_c07, quick=400, thorough=8000,
+               rule="exploration beyond the stated 2..8 teams: lobbies of 9..40 teams; same oracle"),
     ],
     rule="generated games (3/8 in the dyadic regime where sums are exact); oracle: |sum_i D_i/var_i| <= 1e-9 x (magnitude of the summands that must cancel) "
          "+ rounding of forming mu'-mu from the outputs + (TM) 2 kappa/c^2 per tied pair; equal-variance corollary; non-trivial = n >= 3 or a tie; distinct by SHA-1",
